@@ -136,9 +136,9 @@ TDraw ==
           \* region (or alpha map) on the destination, rows covered by the shapes change outside it.
           \/ /\ ev.api \in RasterApis /\ ev.shapes # <<>>
              /\ "C03-raster-ignores-clip" \in Deviations
-             /\ ~DrawsWithin(RegionFor(ev))
+             /\ ~AsValue(FrameOK(mem.dst, ev.after, DstGeom, RegionFor(ev)))
              /\ LET ys == ShapeYs(ev) IN
-                /\ FrameOK(mem.dst, ev.after, DstGeom, Inter(Bounds(img.dst), <<(<<0, ys[1], img.dst.w, ys[2]>>)>>))
+                /\ AsValue(FrameOK(mem.dst, ev.after, DstGeom, Inter(Bounds(img.dst), <<(<<0, ys[1], img.dst.w, ys[2]>>)>>)))
                 /\ ev.aafter = mem.alpha
              /\ UNCHANGED <<img, reg>>
              /\ Deviation("C03-raster-ignores-clip", l)
